@@ -73,6 +73,16 @@ pub fn sets(tier: Tier) -> Vec<Set> {
         //     three titles - more than 2 x 10 x size sharing records, so the top-k helper prunes mid-stream
         if l == L::None || l == L::Ru || tier == Tier::Thorough {
             sets.push(Set { l, name: "run-length stores of 26 over 3 titles (a..a b..b c..c in all 6 orders)".into(), menu: three.clone(), lo: 0, hi: 0, queries: capq.clone(), sizes: vec![1], block: 50 });
+            // the same over three titles that share 3 / 2 / 1 grams with the query "vcv": three distinct counts, so a
+            // better record can arrive after the prune and after an even better one
+            let levels: Vec<String> = vec![format!("{0}{1}{0}", s.v, s.c), format!("{0}{1}", s.v, s.c), s.v.to_string()];
+            sets.push(Set { l, name: "run-length stores of 26 over 3 titles sharing 3 / 2 / 1 grams with the query".into(), menu: levels, lo: 0, hi: 0, queries: capq.clone(), sizes: vec![1], block: 50 });
+        }
+        // (v') four runs over four titles (3 / 2 / 1 / 0 shared grams for the query "vcv"): every composition of 26 into
+        //      four run lengths x every title sequence without equal neighbours
+        if tier == Tier::Thorough && (l == L::None || l == L::Ru) {
+            let four: Vec<String> = vec![format!("{0}{1}{0}", s.v, s.c), format!("{0}{1}", s.v, s.c), s.v.to_string(), format!("{1}{0}", s.v, s.c)];
+            sets.push(Set { l, name: "run-length4 stores of 26: four runs over 4 titles (no equal neighbours)".into(), menu: four, lo: 0, hi: 0, queries: capq.clone(), sizes: vec![1], block: 400 });
         }
         // (iii) word-level menu
         let lex = lex_strings(l);
@@ -98,7 +108,52 @@ pub fn run_len_count() -> u64 {
     6 * ((RUN_TOTAL - 1) * (RUN_TOTAL - 2) / 2) as u64
 }
 
+/// number of four-run stores: 4 x 3 x 3 x 3 title sequences x compositions of RUN_TOTAL into four positive parts
+pub fn run_len4_count() -> u64 {
+    let n = RUN_TOTAL as u64 - 1;
+    108 * (n * (n - 1) * (n - 2) / 6)
+}
+
+fn store_of_run4(set: &Set, idx: u64) -> Vec<Rec> {
+    let mut o = idx % 108;
+    let mut c = idx / 108;
+    // title sequence: first of 4, then each of the 3 titles different from its predecessor
+    let mut seq = vec![(o % 4) as usize];
+    o /= 4;
+    for _ in 0..3 {
+        let prev = *seq.last().unwrap();
+        let pick = (o % 3) as usize;
+        o /= 3;
+        let t = (0..4).filter(|t| *t != prev).nth(pick).unwrap();
+        seq.push(t);
+    }
+    // un-rank the composition (i, j, k, m): enumerate in lexicographic order
+    let mut parts = [1usize; 4];
+    'found: for i in 1..=RUN_TOTAL - 3 {
+        for j in 1..=RUN_TOTAL - i - 2 {
+            let ks = (RUN_TOTAL - i - j - 1) as u64; // choices for k
+            if c < ks {
+                let k = 1 + c as usize;
+                parts = [i, j, k, RUN_TOTAL - i - j - k];
+                break 'found;
+            }
+            c -= ks;
+        }
+    }
+    let mut titles: Vec<usize> = Vec::new();
+    for (n, t) in parts.iter().zip(seq.iter()) {
+        for _ in 0..*n {
+            titles.push(*t);
+        }
+    }
+    assert_eq!(titles.len(), RUN_TOTAL);
+    titles.into_iter().enumerate().map(|(p, t)| rec(100 + p, &set.menu[t], p)).collect()
+}
+
 pub fn store_of(set: &Set, idx: u64) -> Vec<Rec> {
+    if set.hi == 0 && set.name.starts_with("run-length4") {
+        return store_of_run4(set, idx);
+    }
     if set.hi == 0 && set.name.starts_with("run-length") {
         let orders = [[0usize, 1, 2], [0, 2, 1], [1, 0, 2], [1, 2, 0], [2, 0, 1], [2, 1, 0]];
         let order = orders[(idx % 6) as usize];
@@ -127,6 +182,9 @@ pub fn store_of(set: &Set, idx: u64) -> Vec<Rec> {
 }
 
 pub fn set_len(s: &Set) -> u64 {
+    if s.hi == 0 && s.name.starts_with("run-length4") {
+        return run_len4_count();
+    }
     if s.hi == 0 && s.name.starts_with("run-length") {
         run_len_count()
     } else {
@@ -212,12 +270,12 @@ impl Prop for C18 {
         }
     }
     fn rule(&self) -> String {
-        "sweep: every add-sequence (duplicates, empty titles, one-letter words included) over small title menus up to the listed lengths, plus every sequence of 11..12 records over a 2-3 title menu (candidate cap reached for size 1), x every query with a word x sizes; the candidate list of the real index is compared with shared-gram counts recomputed from the public tokeniser output. Non-trivial = non-empty candidate list; outcome_classes separates capped from uncapped cases.".into()
+        "sweep: every add-sequence (duplicates, empty titles, one-letter words included) over small title menus up to the listed lengths, plus every sequence of 11..12 records over a 2-3 title menu (candidate cap reached for size 1), plus stores of 26 records made of three (thorough: also four) runs of equal titles in every order and every split of the 26 (more than 2 x 10 x size records share a gram, so the top-k helper prunes mid-stream), x every query with a word x sizes; the candidate list of the real index is compared with shared-gram counts recomputed from the public tokeniser output. Non-trivial = non-empty candidate list; outcome_classes separates capped from uncapped cases.".into()
     }
     fn assumptions(&self) -> Vec<String> {
         vec![
             "gram sets recomputed by the harness from tokenize_record / tokenize_query output".into(),
-            "stores limited to the listed menus and lengths (<= 12 records)".into(),
+            "stores limited to the listed menus and lengths (<= 12 records by free sequences, 26 by run lengths)".into(),
         ]
     }
 }
